@@ -273,16 +273,26 @@ func c13Gen(r *kit.Rng, id string) *req.Session {
 						kids := payload.S.DataChildren()
 						if len(kids) > 0 {
 							t := kids[r.Intn(len(kids))]
-							xi := r.Intn(5)
-							x := []string{"<%s>text</%s>", "<%s><zz/></%s>", "<%s/>", "<%s><%s/></%s>", "<%s> </%s><%s>1</%s>"}[xi]
+							xi := r.Intn(7)
+							x := []string{"<%s>text</%s>", "<%s><zz/></%s>", "<%s/>", "<%s><%s/></%s>", "<%s> </%s><%s>1</%s>",
+								// the misshapen element is not the first of its run
+								"<%s>a</%s><%s>b</%s><%s><zz/></%s>", "<%s>text</%s>"}[xi]
 							frag := strings.ReplaceAll(x, "%s", t.Name)
+							if xi == 6 && t.Kind == schema.List && payload.List[t.Name] != nil {
+								for _, e := range payload.List[t.Name].Entries {
+									frag = e.XML(t.Name) + frag
+								}
+							}
 							rq.Doc = "<x>" + frag + "</x>"
 							rq.Damage = "shape-swap:" + t.Kind.String()
 							// text where elements are declared, elements where text is declared
 							switch {
-							case (t.Kind == schema.Container || t.Kind == schema.List) && xi == 0:
+							case (t.Kind == schema.Container || t.Kind == schema.List) && (xi == 0 || xi == 6):
 								rq.MustReject = true
 							case (t.Kind == schema.Leaf || t.Kind == schema.LeafList) && (xi == 1 || xi == 3):
+								rq.MustReject = true
+							case t.Kind == schema.LeafList && xi == 5:
+								// (for a leaf only the first element of the run is the leaf's value)
 								rq.MustReject = true
 							}
 						}
